@@ -27,6 +27,12 @@
 #include <stdlib.h>
 #include "EbThreads.h"
 #include "EbLog.h"
+#ifdef SVT_AV1_VERIF
+#include "EbVerifHooks.h"
+void (*svt_verif_trace_cb)(int kind, uint64_t a, uint64_t b, uint64_t c, uint64_t d) = NULL;
+void (*svt_verif_spin_cb)(const volatile void *addr)                                  = NULL;
+void (*svt_verif_sync_store_cb)(const volatile void *addr)                            = NULL;
+#endif
 /****************************************
   * Win32 Includes
   ****************************************/
